@@ -336,8 +336,12 @@ theorem gen_hidden_decisions :
     Scion.Gen.StoresFacts.segmentsConds =
       ["len(req.GroupIDs) == 0", "!ok", "!canRead(req.Peer, group)",
        "!isAuthoritative(s.LocalIA, group)"] ∧
-    Scion.Gen.StoresFacts.canReadReturns = ["return owner || registry || writer || reader"] ∧
-    Scion.Gen.StoresFacts.isAuthoritativeReturns = ["return auth"] ∧
+    Scion.Gen.StoresFacts.canReadReturns =
+      ["owner := group.Owner.Equal(peer)", "_, registry := group.Registries[peer]",
+       "_, writer := group.Writers[peer]", "_, reader := group.Readers[peer]",
+       "return owner || registry || writer || reader"] ∧
+    Scion.Gen.StoresFacts.isAuthoritativeReturns =
+      ["_, auth := group.Registries[localIA]", "return auth"] ∧
     Scion.Gen.StoresFacts.storerGetParams = ["EndsAt=[]addr.IA{ia}", "HPGroupIDs=convert(groups)"] ∧
     Scion.Gen.StoresFacts.storerPutArgs = ["ctx", "seg", "convert([]GroupID{g})"] := by
   refine ⟨by decide, by decide, by decide, by decide, by decide, by decide⟩
